@@ -151,8 +151,8 @@ func (rc *reportCtor) field(name string) (*types.Var, *ir.Term) {
 func c17(e *Env) {
 	c := e.C
 	c.Level = "other"
-	c.Explanation = "Field-by-field wiring of report.NewBase/NewTemporal/NewEnvironmental, read off the SSA form (one straight-line path; the value stored into each field of the returned report as a term over the parameters): for every metric P of the constructor's own level PName = names.<type name of P>(newOptions(os...).lang) and PValue = names.<value function whose parameter type is P's type>(param.P, same language) with param.P the object's own field; group titles and column headers from the like-named functions; Version = param.Ver.String(); Vector = first result of the own-level Encode; <Level>Score = strconv.FormatFloat(own-level Score(), 'f', -1, 64); SeverityValue from the own-level Severity(); the embedded report is the lower constructor applied to the accessor of the embedded object with the same options slice; newOptions returns a fresh value whose language is language.English and calls every element of the options slice on it; WithOptionsLanguage's closure stores its argument; Vector/SeverityName/SeverityValue are declared at depth 0 of every report struct (shadowing) while the embedded report stays reachable. Title functions of different metrics return different titles. Each level's Severity() is severity(own-level Score()) (own-level-severity; what band a score falls in is C06's)."
-	c.Trusted = []string{"go/types + go/ssa", "C18 (name functions) and C14 (accessors return the embedded object) are decided by their own checks"}
+	c.Explanation = "Field-by-field wiring of report.NewBase/NewTemporal/NewEnvironmental, read off the SSA form (one straight-line path; the value stored into each field of the returned report as a term over the parameters): for every metric P of the constructor's own level PName = names.<type name of P>(newOptions(os...).lang) and PValue = names.<value function whose parameter type is P's type>(param.P, same language) with param.P the object's own field; group titles and column headers from the like-named functions; Version = param.Ver.String(); Vector = first result of the own-level Encode; <Level>Score = strconv.FormatFloat(own-level Score(), 'f', -1, 64); SeverityValue from the own-level Severity(); the embedded report is the lower constructor applied to the accessor of the embedded object with the same options slice; newOptions returns a fresh value whose language is language.English and calls every element of the options slice on it; WithOptionsLanguage's closure stores its argument; Vector/SeverityName/SeverityValue are declared at depth 0 of every report struct (shadowing) while the embedded report stays reachable. Title functions of different metrics return different titles. Each level's Severity() is severity(own-level Score()) (own-level-severity; what band a score falls in is C06's). What the name functions return for each value and each requested language (English, Japanese, any other tag) is tabulated as in C18 (title, value-name, modified-equals-base), since that is what the fields show."
+	c.Trusted = []string{"go/types + go/ssa", "C14 (accessors return the embedded object) is decided by its own check"}
 	c.NotDecided = []string{"reports of nil metrics objects (report.NewBase(nil) dereferences its argument; no property quantifies over that)", "what text/template does with the fields (C19)"}
 	e.templateNames("shadowing")
 	nf := e.nameFunctions("name-functions")
@@ -173,6 +173,10 @@ func c17(e *Env) {
 		e.optionsRules()
 	})
 	e.titleDistinct(nf, rcs)
+	// "in the requested language": what a field shows is the name function's result for the language the report was
+	// asked for - a name function that answers Unknown (or nothing) for a language it should serve in English
+	// puts that into every report field of that language
+	e.guardPanics("value-name", "v3/report/names", func() { e.nameCells() })
 	e.reportScoreRendering("score-rendering")
 	// "each level's severity fields show that level's severity": the constructors call the level's own Severity();
 	// that this is the rating of the level's own score is the metric package's side of the same clause
